@@ -140,6 +140,47 @@ fn gcall(c: &Call) -> String {
     }
 }
 
+/// issue the commands on any SVG builder
+fn drive_svg<B: PathBuilder>(svg: &mut WithSvg<B>, cmds: &[Cmd]) {
+    for c in cmds {
+        match c {
+            Cmd::Move(p) => { svg.move_to(*p); }
+            Cmd::RelMove(v) => svg.relative_move_to(*v),
+            Cmd::Line(p) => { svg.line_to(*p); }
+            Cmd::RelLine(v) => svg.relative_line_to(*v),
+            Cmd::H(x) => svg.horizontal_line_to(*x),
+            Cmd::RelH(x) => svg.relative_horizontal_line_to(*x),
+            Cmd::V(y) => svg.vertical_line_to(*y),
+            Cmd::RelV(y) => svg.relative_vertical_line_to(*y),
+            Cmd::Quad(c, p) => { svg.quadratic_bezier_to(*c, *p); }
+            Cmd::RelQuad(c, p) => svg.relative_quadratic_bezier_to(*c, *p),
+            Cmd::SmoothQuad(p) => svg.smooth_quadratic_bezier_to(*p),
+            Cmd::RelSmoothQuad(v) => svg.smooth_relative_quadratic_bezier_to(*v),
+            Cmd::Cubic(a, b, p) => { svg.cubic_bezier_to(*a, *b, *p); }
+            Cmd::RelCubic(a, b, p) => svg.relative_cubic_bezier_to(*a, *b, *p),
+            Cmd::SmoothCubic(b, p) => svg.smooth_cubic_bezier_to(*b, *p),
+            Cmd::RelSmoothCubic(b, p) => svg.smooth_relative_cubic_bezier_to(*b, *p),
+            Cmd::Close => svg.close(),
+            Cmd::ArcTo(r, rot, l, s, to) => svg.arc_to(*r, Angle::radians(*rot), ArcFlags { large_arc: *l, sweep: *s }, *to),
+            Cmd::RelArcTo(r, rot, l, s, v) => svg.relative_arc_to(*r, Angle::radians(*rot), ArcFlags { large_arc: *l, sweep: *s }, *v),
+            Cmd::Arc(c, r, sw, rot) => svg.arc(*c, *r, Angle::radians(*sw), Angle::radians(*rot)),
+        }
+    }
+}
+
+/// the events of a stored path as builder calls
+fn path_calls(p: &lyon_path::Path) -> Vec<Call> {
+    p.iter()
+        .map(|e| match e {
+            lyon_path::PathEvent::Begin { at } => Call::Begin(at),
+            lyon_path::PathEvent::Line { to, .. } => Call::Line(to),
+            lyon_path::PathEvent::Quadratic { ctrl, to, .. } => Call::Quad(ctrl, to),
+            lyon_path::PathEvent::Cubic { ctrl1, ctrl2, to, .. } => Call::Cubic(ctrl1, ctrl2, to),
+            lyon_path::PathEvent::End { close, .. } => Call::End(close),
+        })
+        .collect()
+}
+
 /// issue the command on the real builder; returns the Gallina literal of the command (with the
 /// oracle observed at this point) and the oracle (for the Rust semantics)
 fn issue(svg: &mut WithSvg<Rec>, c: &Cmd) -> (String, Option<Oracle>) {
@@ -492,34 +533,23 @@ fn run_seq(id: usize, cmds: &[Cmd], w: &mut ShardWriter, st: &mut Stats, idx: &m
     // the same sequence on the real Path builder (lyon's debug validator is active in debug builds)
     let real = catch(|| {
         let mut svg = lyon_path::Path::svg_builder();
-        for c in cmds {
-            let cur = svg.current_position();
-            let _ = cur;
-            match c {
-                Cmd::Move(p) => { svg.move_to(*p); }
-                Cmd::RelMove(v) => svg.relative_move_to(*v),
-                Cmd::Line(p) => { svg.line_to(*p); }
-                Cmd::RelLine(v) => svg.relative_line_to(*v),
-                Cmd::H(x) => svg.horizontal_line_to(*x),
-                Cmd::RelH(x) => svg.relative_horizontal_line_to(*x),
-                Cmd::V(y) => svg.vertical_line_to(*y),
-                Cmd::RelV(y) => svg.relative_vertical_line_to(*y),
-                Cmd::Quad(c, p) => { svg.quadratic_bezier_to(*c, *p); }
-                Cmd::RelQuad(c, p) => svg.relative_quadratic_bezier_to(*c, *p),
-                Cmd::SmoothQuad(p) => svg.smooth_quadratic_bezier_to(*p),
-                Cmd::RelSmoothQuad(v) => svg.smooth_relative_quadratic_bezier_to(*v),
-                Cmd::Cubic(a, b, p) => { svg.cubic_bezier_to(*a, *b, *p); }
-                Cmd::RelCubic(a, b, p) => svg.relative_cubic_bezier_to(*a, *b, *p),
-                Cmd::SmoothCubic(b, p) => svg.smooth_cubic_bezier_to(*b, *p),
-                Cmd::RelSmoothCubic(b, p) => svg.smooth_relative_cubic_bezier_to(*b, *p),
-                Cmd::Close => svg.close(),
-                Cmd::ArcTo(r, rot, l, s, to) => svg.arc_to(*r, Angle::radians(*rot), ArcFlags { large_arc: *l, sweep: *s }, *to),
-                Cmd::RelArcTo(r, rot, l, s, v) => svg.relative_arc_to(*r, Angle::radians(*rot), ArcFlags { large_arc: *l, sweep: *s }, *v),
-                Cmd::Arc(c, r, sw, rot) => svg.arc(*c, *r, Angle::radians(*sw), Angle::radians(*rot)),
-            }
-        }
-        svg.build().iter().count()
+        drive_svg(&mut svg, cmds);
+        let a = path_calls(&svg.build());
+        // the same builder reached through Path::builder().with_svg(), and with a reserve() in between
+        let mut svg = lyon_path::Path::builder().with_svg();
+        svg.reserve(3, 2);
+        drive_svg(&mut svg, cmds);
+        let b = path_calls(&svg.build());
+        (a, b)
     });
+    if let Some((a, b)) = &real {
+        if *a != calls {
+            st.fail(jobj(&[("what", jstr("Path::svg_builder stores a different path than the calls seen by a recording builder")), ("input", jstr(&format!("{} -> {:?} vs {:?}", text, a, calls)))]));
+        }
+        if *b != calls {
+            st.fail(jobj(&[("what", jstr("Path::builder().with_svg() stores a different path than the calls seen by a recording builder")), ("input", jstr(&format!("{} -> {:?} vs {:?}", text, b, calls)))]));
+        }
+    }
     if real.is_none() {
         st.fail(jobj(&[("what", jstr("Path::svg_builder panicked (path validator or NaN check)")), ("input", jstr(&text))]));
     }
